@@ -677,3 +677,126 @@ func (sw *sweeper) configWrites(a Analysis) {
 	}
 	sw.add(tag+"/inventory", "configwrites", fmt.Sprintf("%d functions reachable from Compile, %d container write sites examined", len(set), n), len(set) > 0 && len(missing) == 0 && n > 0, "empty", token.NoPos)
 }
+
+// ---------------------------------------------------------------- write set by access path (C16)
+
+// writeset: every write reachable from the roots must match one of the allowed "<kind>:<func>:<access path>" patterns.
+func (sw *sweeper) writeset(a Analysis) {
+	set, missing := sw.reach(a)
+	tag := "sweep/writeset:" + a.Name
+	for _, m := range missing {
+		sw.add(tag+"/root-exists:"+m, "writeset", "root exists", false, "no such function: "+m, token.NoPos)
+	}
+	var allowed []*regexp.Regexp
+	for _, k := range a.AllowedIn {
+		allowed = append(allowed, regexp.MustCompile("^"+k+"$"))
+	}
+	n := 0
+	for _, fn := range sortedFuncs(sw, set) {
+		k := sw.key(fn)
+		site := func(kind string, v ssa.Value, pos token.Pos) {
+			n++
+			path := sw.accessPath(v, fn, 0)
+			ok := true
+			for _, alt := range strings.Split(path, "|") {
+				if alt == "fresh" || alt == "nil" || alt == "cycle" {
+					continue
+				}
+				m := false
+				for _, re := range allowed {
+					if re.MatchString(kind + ":" + k + ":" + alt) {
+						m = true
+					}
+				}
+				if !m {
+					ok = false
+				}
+			}
+			sw.add(tag+"/"+k+"/"+kind+":"+sw.stmtOf(fn, pos, kind), "writeset", "write is one of the declared ones (path "+path+")", ok, "unexpected write "+kind+" through "+path+" in "+k, pos)
+		}
+		for _, b := range fn.Blocks {
+			for _, ins := range b.Instrs {
+				switch x := ins.(type) {
+				case *ssa.Store:
+					if isLocalCellAddr(x.Addr) {
+						continue
+					}
+					site("store", x.Addr, x.Pos())
+				case *ssa.MapUpdate:
+					site("map-update", x.Map, x.Pos())
+				case *ssa.Call:
+					com := x.Common()
+					if bi, ok := com.Value.(*ssa.Builtin); ok {
+						if bi.Name() == "copy" || bi.Name() == "append" || bi.Name() == "delete" {
+							site(bi.Name(), com.Args[0], x.Pos())
+						}
+						continue
+					}
+					if sc := com.StaticCallee(); sc != nil && !set[sc] {
+						if idx, ok := mutatingExternals[sc.String()]; ok {
+							arg := com.Args[idx]
+							if mi, ok := arg.(*ssa.MakeInterface); ok {
+								arg = mi.X
+							}
+							site("mutating-call("+sc.String()+")", arg, x.Pos())
+						}
+					}
+				}
+			}
+		}
+	}
+	sw.add(tag+"/inventory", "writeset", fmt.Sprintf("%d functions reachable, %d writes examined", len(set), n), len(set) > 0 && len(missing) == 0 && n > 0, "empty", token.NoPos)
+}
+
+// guardedcall: every call of Callee inside Func is dominated by the true branch of a test `Guard(...)`.
+func (sw *sweeper) guardedcall(a Analysis) {
+	tag := "sweep/guardedcall:" + a.Name
+	fnKey, _ := a.Extra["func"].(string)
+	callee, _ := a.Extra["callee"].(string)
+	guard, _ := a.Extra["guard"].(string)
+	fn := sw.p.Lookup(fnKey)
+	if fn == nil {
+		sw.add(tag+"/func-exists", "guardedcall", "function exists", false, "no such function "+fnKey, token.NoPos)
+		return
+	}
+	n := 0
+	for _, b := range fn.Blocks {
+		for _, ins := range b.Instrs {
+			call, ok := ins.(*ssa.Call)
+			if !ok {
+				continue
+			}
+			sc := call.Common().StaticCallee()
+			if sc == nil || sc.String() != callee {
+				continue
+			}
+			n++
+			// walk up the dominator tree: some dominating block ends in `if guard(...)` and we are below its true successor
+			ok2 := false
+			for d := b; d != nil && !ok2; d = d.Idom() {
+				id := d.Idom()
+				if id == nil {
+					break
+				}
+				iff, isIf := id.Instrs[len(id.Instrs)-1].(*ssa.If)
+				if !isIf {
+					continue
+				}
+				gc, isCall := iff.Cond.(*ssa.Call)
+				if !isCall {
+					continue
+				}
+				gsc := gc.Common().StaticCallee()
+				if gsc == nil || sw.key(gsc) != guard {
+					continue
+				}
+				// d must be (dominated by) the true successor, which must not be reachable from the false side without the test
+				if id.Succs[0] == d && len(d.Preds) == 1 {
+					ok2 = true
+				}
+			}
+			sw.add(tag+"/"+fnKey+"/"+callee+":"+sw.stmtOf(fn, call.Pos(), "call"), "guardedcall", "call of "+callee+" is dominated by a successful "+guard+" test", ok2, "not dominated by the true branch of "+guard, call.Pos())
+		}
+	}
+	sw.add(tag+"/site-exists", "guardedcall", "the guarded call site exists", n >= 1, "no call of "+callee+" in "+fnKey, token.NoPos)
+}
